@@ -3,11 +3,24 @@
 (* through the actions of Map.tla, one event = one action.                       *)
 EXTENDS Map, TraceIO, Known_Map
 
-VARIABLES l, subj, kf
+VARIABLES l, subj, kf,
+          dels,      \* ghost: successful removes since the last clear / compaction (bound for IterFast)
+          big        \* ghost: the map has held more than 8 entries since its last clear (guard of C06-KF2)
 
-vars == <<m, l, subj, kf>>
+vars == <<m, l, subj, kf, dels, big>>
+Ghost == [dels |-> dels, big |-> big]
 
-TraceInit == m = Empty /\ l = 1 /\ subj = [subject |-> "none"] /\ kf = {}
+TraceInit == m = Empty /\ l = 1 /\ subj = [subject |-> "none"] /\ kf = {} /\ dels = 0 /\ big = FALSE
+
+(* the predicate of a retain event, named in the event: kmod = keep k unless k % a = b;   *)
+(* vlt = keep values below a; all / none                                                   *)
+Keep(e, k, v) == CASE e.pk = "kmod" -> (k % e.a) /= e.b
+                   [] e.pk = "vlt"  -> v < e.a
+                   [] e.pk = "all"  -> TRUE
+                   [] e.pk = "none" -> FALSE
+DelsNext(e) == IF e.op = "clear" \/ (e.op = "maintenance" /\ Has(e, "what") /\ e.what = "revoke_deleted") THEN 0
+               ELSE IF e.op = "remove" /\ e.ok /\ e.r /= None THEN dels + 1
+               ELSE dels
 
 Step(e) ==
     \/ e.op = "insert"   /\ e.ok  /\ Insert(e.k, e.v, e.r)
@@ -23,17 +36,34 @@ Step(e) ==
     \/ e.op = "put"      /\ Put(e.k, e.v)
     \/ e.op = "maintenance" /\ Maintenance
     \/ e.op = "probe"    /\ Probe(e.get, e.len, e.has_iter, e.iter)
+                         /\ (Has(e, "empty") => e.empty = (DOMAIN m = {}))
+    \/ e.op = "is_empty" /\ IsEmpty(e.r)
+    \/ e.op = "iter_fast" /\ IterFast(e.r, dels)
+    \/ e.op = "insert_batch" /\ e.ok  /\ InsertBatch(e.kv)
+    \/ e.op = "insert_batch" /\ ~e.ok /\ InsertBatchRefused(e.kv)
+    \/ e.op = "get_batch" /\ GetBatch(e.ks, e.r)
+    \/ e.op = "extend"   /\ Extend(e.kv)
+    \/ e.op = "get_or_default" /\ GetOrDefault(e.k, e.d, e.r)
+    \/ e.op = "get_or_insert" /\ e.ok /\ e.called = None /\ GetOrInsert(e.k, e.v, e.w, e.r)
+    \/ e.op = "get_or_insert" /\ e.ok /\ e.called /= None /\ GetOrInsertWith(e.k, e.v, e.w, e.r, e.called[1])
+    \/ e.op = "get_or_insert" /\ ~e.ok /\ GetOrInsertRefused
+    \/ e.op = "retain"   /\ Retain(LAMBDA k, v : Keep(e, k, v), LAMBDA v : IF e.mut THEN v + 1 ELSE v, e.seen)
+    \/ e.op = "keys"     /\ KeysOf(e.r)
+    \/ e.op = "values"   /\ ValuesOf(e.r)
+    \/ e.op = "clone"    /\ CloneSwap(e.eq)
 
 TraceNext ==
     /\ l <= Len(Rec)
     /\ l' = l + 1
     /\ LET e == Rec[l] IN
        IF e.op = "reset"
-       THEN m' = Empty /\ subj' = e /\ kf' = kf
+       THEN m' = Empty /\ subj' = e /\ kf' = kf /\ dels' = 0 /\ big' = FALSE
        ELSE /\ subj' = subj
-            /\ IF UseKF /\ \E id \in KnownIds : DevApplies(id, e, subj)
-               THEN \E id \in KnownIds : KnownDeviation(id, e, subj) /\ kf' = kf \cup {id}
+            /\ dels' = DelsNext(e)
+            /\ IF UseKF /\ \E id \in KnownIds : DevApplies(id, e, subj, Ghost)
+               THEN \E id \in KnownIds : KnownDeviation(id, e, subj, Ghost) /\ kf' = kf \cup {id}
                ELSE Step(e) /\ kf' = kf
+            /\ big' = ((e.op /= "clear" /\ big) \/ Cardinality(DOMAIN m') > 8)
 
 TraceSpec == TraceInit /\ [][TraceNext]_vars
 
